@@ -127,6 +127,8 @@ def _name(rng, i, profile, n):
         return base + "_" + "x" * rng.choice([0, 0, 1, 7, 60, 500, 3000])
     if profile == "growing":
         return base + "_" + "g" * (i * 3)
+    if profile == "utf8":
+        return base + "_" + rng.choice(["é", "名前", "Ωmega", "\U0001F9EC", "ü" * 40, ""]) * rng.choice([1, 1, 3, 50])
     return base
 
 
@@ -138,7 +140,7 @@ def gen_regions(rng, bw, tier, small=False):
         n = rng.choice([1, 2, 3, 5, 11, 17, 60, 250])
     else:
         n = rng.choice([1, 2, 3, 5, 11, 17, 60, 250, 1000, 2500])
-    profile = rng.choice(["uniform", "one_huge", "first_huge", "last_huge", "ragged", "growing"]) if ncol >= 4 and not small else "uniform"
+    profile = rng.choice(["uniform", "one_huge", "first_huge", "last_huge", "ragged", "growing", "utf8"]) if ncol >= 4 and not small else "uniform"
     rows, cats = [], {}
     for i in range(n):
         chrom = rng.choice(bw["names"])
